@@ -10,7 +10,7 @@ import ast, contextlib, copy, io, sys
 from pathlib import Path
 sys.path.insert(0, str(Path(__file__).resolve().parent.parent))
 from pgstat import inline as _inline
-from pgstat.model import normalise_tree, _canonical_receivers
+from pgstat.model import normalise_tree, _canonical_receivers, _propagate_module_constants, record_classes
 
 CASES = r'''
 import functools
@@ -378,6 +378,64 @@ def guard_continue_collect(xs):
         out.append(x)
     return out
 
+from typing import NamedTuple
+_LIMIT = 5
+_NAME = "tag"
+
+class _Pair(NamedTuple):
+    left: int
+    right: int
+
+def record_scalar_replacement(a, b):
+    total = a + b
+    pr = _Pair(left=a, right=total)
+    return pr.left * 10 + pr.right
+
+def record_escapes_must_stay(a, b):
+    pr = _Pair(a, b)
+    return pr, pr.left
+
+def _helper_normalise(level, table):
+    if isinstance(level, str):
+        level = table[level]
+    assert 0 < level < 1.0
+    return level
+
+def uses_rebinding_helper(level, table):
+    level = _helper_normalise(level, table)
+    return level * 2
+
+def format_call(a, b):
+    return "x={} y={}".format(a, b) + "{}!".format(_NAME)
+
+def format_call_with_spec_must_stay(a):
+    return "{:>4}|{!r}".format(a, a)
+
+def polarity_two_branches(x):
+    if x is not None:
+        r = x + 1
+    else:
+        r = 0
+    if not x:
+        s = "falsy"
+    else:
+        s = "truthy"
+    return r, s
+
+def polarity_return_pair(x, ys):
+    if x not in ys:
+        return "absent"
+    return "present"
+
+def module_constants(a):
+    if a > _LIMIT:
+        return _NAME
+    return a + _LIMIT
+
+def shadowed_module_constant(a):
+    _LIMIT = a * 2
+    return _LIMIT + 1
+
 class Box:
     def __init__(self, v):
         self.v = v
@@ -434,6 +492,9 @@ ARGS = {
     "counting_while_else_adjacent": [([1, 2, 3], 2), ([1, 2, 3], 9), ([], 1)], "counting_while_with_continue_must_stay": [([1, -2, 3],)],
     "uses_helper_defaults": [(2, [5, 6])], "generator_consumer_with_break_must_stay": [([1, 2, 3], 2), ([1, 2, 3], 9)], "nested_collecting": [([[1, 2], [3]],)],
     "uses_cached_helper_must_stay": [(3,), (4,)],
+    "record_scalar_replacement": [(1, 2)], "record_escapes_must_stay": [(1, 2)], "uses_rebinding_helper": [("low", {"low": 0.1}), (0.5, {}), (2.0, {})],
+    "format_call": [(1, "z")], "format_call_with_spec_must_stay": [(7,)], "polarity_two_branches": [(None,), (0,), (3,)],
+    "polarity_return_pair": [(1, [1, 2]), (5, [1, 2])], "module_constants": [(2,), (9,)], "shadowed_module_constant": [(4,)],
     "chained_store_through_subscript": [([[0, 0], [0, 0]], 0, 1, 7)], "guard_continue_collect": [([1, None, -2, 3],)], "uses_box": [(1,), (5,)],
 }
 
@@ -455,9 +516,10 @@ def main() -> int:
     exec(compile(CASES, "<cases>", "exec"), orig)
     tree = ast.parse(CASES)
     _canonical_receivers(tree)
+    _propagate_module_constants(tree)
     n_inlined, log = _inline.inline_module_helpers(tree, "cases")
     dropped = _inline.drop_unreferenced_helpers([tree])
-    normalise_tree(tree)
+    normalise_tree(tree, frozenset(), record_classes([tree]))
     ast.fix_missing_locations(tree)
     norm_src = ast.unparse(tree)
     new = {"_Lock": _Lock, "_P": _P}
